@@ -7,6 +7,7 @@ import (
 	"path/filepath"
 	"sort"
 	"strings"
+	"time"
 
 	"github.com/youchainhq/go-youchain/common"
 	"github.com/youchainhq/go-youchain/params"
@@ -17,7 +18,9 @@ import (
 
 const clashMatcher = "raw-node-hash-clash"
 
-func nonFIFO(p schedParams) bool { return p.order != 0 || p.wDup+p.wCorrupt+p.wUnsol > 0 || p.dropPct > 0 }
+func nonFIFO(p schedParams) bool {
+	return p.order != 0 || p.wDup+p.wCorrupt+p.wUnsol > 0 || p.dropPct > 0
+}
 
 func genCase(r *vh.RNG, oracle bool, forceClash bool) (*kase, schedParams) {
 	kind := "state"
@@ -45,6 +48,7 @@ func caseCanon(k *kase) string {
 func run(c *vh.Ctx) error {
 	quiet.Silence()
 	params.InitNetworkId(params.NetworkIdForTestCase)
+	tRun := time.Now()
 	res := c.Res
 	res.Rule = "case = (source trie or state built with the real trie code, initial destination content, schedule of Missing / deliveries / commits / restarts generated against the running real sync); non-trivial when the source has >= 1 branch node, (state: >= 1 storage sub-trie), and the schedule is not the plain FIFO one (other order, duplicates, corrupted or unsolicited blobs, never-answered requests, or a restart); distinct by canonical text of the whole case"
 	var drv *vh.Driver
@@ -88,6 +92,9 @@ func run(c *vh.Ctx) error {
 	nCorr := c.N(1000, 12000)
 	if c.Search {
 		nOracle *= 3
+	}
+	if os.Getenv("C19_LOOPONLY") != "" { // stress the end-to-end stream alone
+		nOracle, nCorr = 0, 0
 	}
 	knownSeen := false
 	runOne := func(i int, oracle bool, forceClash bool) error {
@@ -193,19 +200,58 @@ func run(c *vh.Ctx) error {
 		res.Fail(kind, matcher, what, rp)
 		return nil
 	}
-	for i := 0; i < nOracle; i++ {
+	// a broken tree fails thousands of cases; a dozen shrunk replays are enough, the rest only costs time
+	enough := func() bool {
+		n := 0
+		for _, f := range res.Failures {
+			if f.Matcher == "" {
+				n++
+			}
+		}
+		return n >= 12
+	}
+	for i := 0; i < nOracle && !enough(); i++ {
 		if err := runOne(i, true, i%40 == 7); err != nil {
 			return err
 		}
 	}
-	for i := 0; i < nCorr; i++ {
+	for i := 0; i < nCorr && !enough(); i++ {
 		if err := runOne(i, false, false); err != nil {
 			return err
 		}
 	}
+	// ---- end-to-end stream over the real downloader trie-sync loop ------------------------------------------
+	nLoop := c.N(12, 150) * len(loopScenarios)
+	loopFails := 0
+	for i := 0; i < nLoop && loopFails < 12; i++ {
+		seed := c.R.U64()
+		lr := runLoopCase(i, seed)
+		res.Count(lr.canon, true)
+		res.Dist("loop-" + lr.scenario)
+		res.Dist("loop-outcome-" + lr.outcome)
+		for s, n := range lr.stats {
+			res.DistN(s, n)
+		}
+		if i < 1 {
+			res.Sample(map[string]interface{}{"mode": "end-to-end", "case": lr.canon, "outcome": lr.outcome})
+		}
+		if lr.fail != "" {
+			rp := vh.WriteReplay(c.ReplayDir, "C19", fmt.Sprintf("loop-%s-%d", lr.scenario, i), c.Seed,
+				[]string{"oracle (end-to-end, real downloader loop): " + lr.fail}, []string{loopReplayLine(i, seed)})
+			res.Fail("oracle", "", lr.fail, rp)
+			loopFails++
+		}
+	}
+
+	if traceOn {
+		fmt.Fprintf(os.Stderr, "end-to-end stream done at %v\n", time.Since(tRun))
+	}
 	// ---- known-finding probe F-C19a -------------------------------------------------------------------
 	pr := probeClash(c.R.Fork(), drv)
 	res.Probes = append(res.Probes, pr)
+	if traceOn {
+		fmt.Fprintf(os.Stderr, "probe done at %v\n", time.Since(tRun))
+	}
 
 	res.Partial = append(res.Partial,
 		"Missing(n): the order among equal priorities is prque's; the model accepts any answer that pops n queued hashes of highest priority (checked per call)",
@@ -294,6 +340,9 @@ func probeClash(r *vh.RNG, drv *vh.Driver) vh.Probe {
 }
 
 func replayWith(drv *vh.Driver, body, comments []string) (bool, string) {
+	if len(body) > 0 && strings.HasPrefix(body[0], "LOOPCASE") {
+		return replayLoop(body[0])
+	}
 	k, err := parseKase(body)
 	if err != nil {
 		return false, "unreadable replay: " + err.Error()
